@@ -14,7 +14,7 @@ def outputTextIds (A : CAtoms) : Node → List Nat
   | .text i _ => [i]
   | .other _ _ => []
   | .elem i t attrs ks =>
-    if t == "script" || t == "style" then [] else if visible A i t attrs then outputTextIdsL A ks else []
+    if t == "script" || t == "style" || A.foreignRaw i then [] else if visible A i t attrs then outputTextIdsL A ks else []
 def outputTextIdsL (A : CAtoms) : List Node → List Nat
   | [] => []
   | k :: ks => outputTextIds A k ++ outputTextIdsL A ks
@@ -59,7 +59,7 @@ def outputTags (A : CAtoms) : Node → List String
   | .text _ _ => []
   | .other _ _ => []
   | .elem i t attrs ks =>
-    if t == "script" || t == "style" then [] else if visible A i t attrs then t :: outputTagsL A ks else []
+    if t == "script" || t == "style" || A.foreignRaw i then [] else if visible A i t attrs then t :: outputTagsL A ks else []
 def outputTagsL (A : CAtoms) : List Node → List String
   | [] => []
   | k :: ks => outputTags A k ++ outputTagsL A ks
@@ -78,7 +78,9 @@ theorem outputTags_no_script (A : CAtoms) : (n : Node) → ∀ t ∈ outputTags 
     · rename_i hne
       split at hx
       · rcases List.mem_cons.mp hx with h | h
-        · subst h; simpa using hne
+        · subst h
+          have : (¬x = "script" ∧ ¬x = "style") ∧ A.foreignRaw i = false := by simpa using hne
+          exact this.1
         · exact outputTagsL_no_script A ks x h
       · simp at hx
 theorem outputTagsL_no_script (A : CAtoms) : (ks : List Node) → ∀ t ∈ outputTagsL A ks, t ≠ "script" ∧ t ≠ "style"
